@@ -52,6 +52,16 @@ type c01In struct {
 	Path   c01B      `json:"path"`             // URL.Path as the server sees it (decoded bytes)
 	Target c01B      `json:"target,omitempty"` // if set: raw request-target, parsed by url.ParseRequestURI as net/http does
 	Proto  int       `json:"proto"`
+	// several listeners created one after the other in ONE process (a group listed twice = the listener
+	// created again, as a reload does), then requests to any of them after all exist
+	Groups [][]c01Site `json:"groups,omitempty"`
+	Reqs   []c01Req    `json:"reqs,omitempty"`
+}
+type c01Req struct {
+	Srv   int  `json:"srv"` // index into groups
+	Host  c01B `json:"host"`
+	Path  c01B `json:"path"`
+	Proto int  `json:"proto"`
 }
 
 var c01Magic *certmagic.Config
@@ -67,8 +77,90 @@ var c01Simple = regexp.MustCompile(`^[A-Za-z0-9/._-]*$`)
 
 const c01Trivial = `(CRoute [] [] [] [] 1%N false [] 404%N [] [])`
 
+// c01RunMulti: NewServer for every group in order, all servers kept alive, then every request is sent to its
+// listener. Site ids are unique over the whole process, so a site of another listener answering is visible.
+func c01RunMulti(in *c01In) Result {
+	var trace []uint64
+	gotPath, gotPrefix := "", ""
+	var srvs []*httpserver.Server
+	var groupTerms []string
+	nextID := uint64(0)
+	fbPer := []int{}
+	for _, g := range in.Groups {
+		var group []*httpserver.SiteConfig
+		var siteTerms, xf []string
+		for _, s := range g {
+			addr, err := httpserver.VerifStandardizeAddress(string(s.Key))
+			if err != nil {
+				return Result{Term: c01Trivial, Obs: "address error: " + err.Error(), Class: "addr-error", Sig: "addr-error"}
+			}
+			addr = addr.Normalize()
+			cfg := &httpserver.SiteConfig{Addr: addr, TLS: c01TLS(), FallbackSite: s.Fallback}
+			id := nextID
+			nextID++
+			cfg.AddMiddleware(func(next httpserver.Handler) httpserver.Handler {
+				return handlerFunc(func(w http.ResponseWriter, r *http.Request) (int, error) {
+					trace = append(trace, id)
+					gotPath = r.URL.Path
+					gotPrefix, _ = r.Context().Value(casket.CtxKey("path_prefix")).(string)
+					w.WriteHeader(200)
+					return 0, nil
+				})
+			})
+			group = append(group, cfg)
+			siteTerms = append(siteTerms, cPair(cStr(addr.VHost()), cN(id)))
+			if s.Fallback {
+				xf = append(xf, addr.Host)
+			}
+		}
+		srv, err := httpserver.NewServer("127.0.0.1:0", group)
+		if err != nil {
+			return Result{Term: c01Trivial, Obs: "NewServer: " + err.Error(), Class: "newserver-error", Sig: "newserver-error", Direct: "NewServer failed: " + err.Error()}
+		}
+		srvs = append(srvs, srv)
+		groupTerms = append(groupTerms, cPair(cList(siteTerms), cStrList(xf)))
+		fbPer = append(fbPer, len(xf))
+	}
+	var reqTerms []string
+	var obs []map[string]interface{}
+	hits := 0
+	for _, q := range in.Reqs {
+		if q.Srv < 0 || q.Srv >= len(srvs) {
+			return Result{Term: c01Trivial, Obs: "request names no listener", Class: "bad-listener", Sig: "bad-listener"}
+		}
+		trace, gotPath, gotPrefix = nil, "", ""
+		req := httptest.NewRequest("GET", "http://placeholder.invalid/", nil)
+		req.Host = string(q.Host)
+		up := string(q.Path)
+		req.URL = &url.URL{Path: up}
+		req.RequestURI = up
+		req.ProtoMajor = q.Proto
+		rec := httptest.NewRecorder()
+		srvs[q.Srv].ServeHTTP(rec, req)
+		if len(trace) > 0 {
+			hits++
+		}
+		reqTerms = append(reqTerms, "{| mq_srv := "+cN(uint64(q.Srv))+"; mq_host := "+cStr(string(q.Host))+"; mq_path := "+cStr(up)+
+			"; mq_proto := "+cN(uint64(q.Proto))+"; mq_simple := "+cBool(c01Simple.MatchString(up))+"; mq_trace := "+cNList(trace)+
+			"; mq_status := "+cN(uint64(rec.Code))+"; mq_prefix := "+cStr(gotPrefix)+"; mq_opath := "+cStr(gotPath)+" |}")
+		obs = append(obs, map[string]interface{}{"srv": q.Srv, "trace": append([]uint64{}, trace...), "status": rec.Code, "prefix": gotPrefix})
+	}
+	term := cApp("CMulti", cList(groupTerms), cList(reqTerms))
+	one := 0
+	for _, n := range fbPer {
+		if n == 1 {
+			one++
+		}
+	}
+	return Result{Term: term, Obs: obs, Sig: "listeners", Nontrivial: len(in.Groups) >= 2 && len(in.Reqs) >= 2,
+		Class: fmt.Sprintf("listeners:n=%d:one-fallback=%d:hit-all=%v", len(in.Groups), one, hits == len(in.Reqs))}
+}
+
 func c01Run(in0 interface{}) Result {
 	in := in0.(*c01In)
+	if len(in.Groups) > 0 {
+		return c01RunMulti(in)
+	}
 	var group []*httpserver.SiteConfig
 	var trace []uint64 // ids of the sites whose marker ran, in order: which site ran and how many handlers ran
 	gotPath, gotPrefix := "", ""
@@ -487,13 +579,72 @@ func c01Gen(r *Rand, tier string) []interface{} {
 		in := &c01In{Sites: sites, Host: c01B(c01ReqHost(r, sites, foreign)), Target: c01B(r.Pick(targets)), Proto: protoOf()}
 		out = append(out, in)
 	}
+
+	// (G) several listeners in one process: 2-3 site groups, each with zero, one or two designated fallback sites of
+	// different host names (plus ordinary / catch-all sites), created one after the other — sometimes a group is
+	// created again, as a reload does — and only then requests to EVERY listener: unknown hosts (the listener's own
+	// designated fallback must answer, never another listener's), the fallback host names of all groups, declared hosts
+	fbNames := []string{"fb-a.example", "FB-b.example", "fb-c.example:2015", "*.fb-d.example", "[::1]", "fb-e.example/a", "fb-f.example"}
+	for i := 0; i < 110*scale; i++ {
+		ng := r.Range(2, 3)
+		names := r.Perm(len(fbNames))
+		ni := 0
+		var groups [][]c01Site
+		for g := 0; g < ng; g++ {
+			var sites []c01Site
+			nfb := []int{1, 1, 1, 0, 2}[r.Intn(5)]
+			for k := 0; k < nfb && ni < len(names); k++ {
+				sites = append(sites, c01Site{Key: c01B(fbNames[names[ni]]), Fallback: true})
+				ni++
+			}
+			if r.Chance(50) {
+				sites = append(sites, c01Site{Key: c01B(r.Pick([]string{"a.com", "*.a.com", "x.org/a", "b.a.com:8080", "localhost"}))})
+			}
+			if r.Chance(15) {
+				sites = append(sites, c01Site{Key: c01B(r.Pick([]string{":2015", "0.0.0.0:2015", "[::]:80/a", "*"}))})
+			}
+			if r.Chance(20) && ni > 0 { // a site named like ANOTHER group's fallback host, not designated here
+				sites = append(sites, c01Site{Key: c01B(fbNames[names[r.Intn(ni)]] )})
+			}
+			if len(sites) == 0 {
+				sites = append(sites, c01Site{Key: c01B("only.example")})
+			}
+			// distinct addresses inside one group
+			seen := map[string]bool{}
+			var uniq []c01Site
+			for _, s := range sites {
+				k := strings.ToLower(string(s.Key))
+				if !seen[k] {
+					seen[k] = true
+					uniq = append(uniq, s)
+				}
+			}
+			groups = append(groups, permuted(uniq, r.Perm(len(uniq))))
+		}
+		if r.Chance(35) { // reload: one of the groups is created again, after the others
+			groups = append(groups, groups[r.Intn(len(groups))])
+		}
+		var reqs []c01Req
+		for g := range groups {
+			hostsFor := []string{r.Pick([]string{"nosuch.example", "zzz", "", "1.2.3.4", "q.fb-d.example"})}
+			og := groups[r.Intn(len(groups))]
+			hostsFor = append(hostsFor, c01KeyHost(string(og[r.Intn(len(og))].Key)))
+			if r.Chance(50) {
+				hostsFor = append(hostsFor, c01ReqHost(r, groups[g], foreign))
+			}
+			for _, h := range hostsFor {
+				reqs = append(reqs, c01Req{Srv: g, Host: c01B(h), Path: c01B(r.Pick([]string{"/", "/a", "/a/b", "/b"})), Proto: protoOf()})
+			}
+		}
+		out = append(out, &c01In{Groups: groups, Reqs: reqs})
+	}
 	return out
 }
 
 func init() {
 	register(&Property{
 		ID: "C01", Imports: "V.Lib V.GoPath V.GoNet V.C01_Model", Judge: "judge",
-		Rule:   "httpserver.NewServer + Server.ServeHTTP with a marker middleware per site that records the ordered list of sites whose handlers ran, the path_prefix context value and the trimmed path; streams: (A) mixed sets of 1-5 addresses over exact/wildcard/catch-all/IPv4/IPv6/punycode hosts x ports x mixed case x path prefixes (multi-byte UTF-8, truncated sequences, percent text), optional fallback flag, occasional repeated address, re-run permuted; (B) wildcard patterns of every depth for one name declared in EVERY order; (C) 2-5 sites sharing a host with nested byte-wise path prefixes plus a decoy host owning a longer prefix; (D) IPv6 literals with/without brackets and ports on both sides; (E) raw request-targets decoded by url.ParseRequestURI; (F) built-in catch-all hosts next to designated fallback sites in every mix. Requests aim at declared hosts (wildcards instantiated, one label more/less, random letter case, ports) or foreign hosts; paths are declared prefixes extended/truncated/bit-flipped with arbitrary bytes; protocol major 0-3. non-trivial = at least two sites; distinct = distinct case term",
+		Rule:   "httpserver.NewServer + Server.ServeHTTP with a marker middleware per site that records the ordered list of sites whose handlers ran, the path_prefix context value and the trimmed path; streams: (A) mixed sets of 1-5 addresses over exact/wildcard/catch-all/IPv4/IPv6/punycode hosts x ports x mixed case x path prefixes (multi-byte UTF-8, truncated sequences, percent text), optional fallback flag, occasional repeated address, re-run permuted; (B) wildcard patterns of every depth for one name declared in EVERY order; (C) 2-5 sites sharing a host with nested byte-wise path prefixes plus a decoy host owning a longer prefix; (D) IPv6 literals with/without brackets and ports on both sides; (E) raw request-targets decoded by url.ParseRequestURI; (F) built-in catch-all hosts next to designated fallback sites in every mix; (G) 2-3 listeners (site groups with zero, one or two designated fallback sites of different names) created one after the other in ONE process by NewServer, sometimes one of them created again as a reload does, and only then requests to EVERY listener (unknown hosts, the other listeners' fallback host names, declared hosts), each judged against its own listener's site group. Requests aim at declared hosts (wildcards instantiated, one label more/less, random letter case, ports) or foreign hosts; paths are declared prefixes extended/truncated/bit-flipped with arbitrary bytes; protocol major 0-3. non-trivial = at least two sites; distinct = distinct case term",
 		Gen:    c01Gen,
 		Decode: func(raw json.RawMessage) (interface{}, error) { in := &c01In{}; return in, json.Unmarshal(raw, in) },
 		Run:    c01Run,
